@@ -314,20 +314,44 @@ func ruleOptionPropagation(w *World, r *Report) {
 	r.Expect("option types with both a by-name and a direct setter", pairs, 2)
 
 	r.Rule("C10-Pd", "Render's Once-closure copies config.Options into the options it ranges over, and for every node renderer calls SetOption(name, value) for every entry — guarded only by the SetOptioner type test — before that renderer's RegisterFuncs.")
-	for _, oc := range w.renderOnceClosures() {
+	for _, oc0 := range w.renderOnceClosures() {
+		oc := oc0
 		key := w.FnKey(oc)
 		var setCall, regCall ssa.Instruction
-		for _, b := range oc.Blocks {
-			for _, ins := range b.Instrs {
-				c, ok := ins.(ssa.CallInstruction)
-				if !ok || !c.Common().IsInvoke() {
-					continue
+		find := func(fn *ssa.Function) {
+			setCall, regCall = nil, nil
+			for _, b := range fn.Blocks {
+				for _, ins := range b.Instrs {
+					c, ok := ins.(ssa.CallInstruction)
+					if !ok || !c.Common().IsInvoke() {
+						continue
+					}
+					switch c.Common().Method.Name() {
+					case "SetOption":
+						setCall = ins
+					case "RegisterFuncs":
+						regCall = ins
+					}
 				}
-				switch c.Common().Method.Name() {
-				case "SetOption":
-					setCall = ins
-				case "RegisterFuncs":
-					regCall = ins
+			}
+		}
+		find(oc)
+		helperMode := false
+		if setCall == nil && regCall == nil {
+			// the per-renderer step extracted into a method that the initialiser calls from its loop over the node
+			// renderers: the same conditions are checked inside that method
+			for _, l := range findLoops(oc0) {
+				for b := range l.Body {
+					for _, ins := range b.Instrs {
+						if c, ok := ins.(*ssa.Call); ok && !helperMode {
+							if cal := c.Common().StaticCallee(); cal != nil && w.InModule(cal) && cal.Blocks != nil && cal.Pkg == oc0.Pkg {
+								find(cal)
+								if setCall != nil && regCall != nil {
+									oc, helperMode = cal, true
+								}
+							}
+						}
+					}
 				}
 			}
 		}
@@ -356,11 +380,20 @@ func ruleOptionPropagation(w *World, r *Report) {
 				}
 			}
 		}
-		if outer == nil {
+		if outer == nil && !helperMode {
 			r.Bad(key, w.FnPos(oc), "SetOption and RegisterFuncs are not in the same loop over the node renderers")
 			continue
 		}
-		after := reachesWithout(regCall.Block(), setCall.Block(), outer.Header)
+		var after bool
+		if helperMode {
+			after = reachesWithout(regCall.Block(), setCall.Block(), nil)
+			outer = &Loop{Header: oc.Blocks[0], Body: map[*ssa.BasicBlock]bool{}}
+			for _, b := range oc.Blocks {
+				outer.Body[b] = true
+			}
+		} else {
+			after = reachesWithout(regCall.Block(), setCall.Block(), outer.Header)
+		}
 		// conditions controlling SetOption inside the outer iteration: only the SetOptioner type test and loop tests
 		guardOK := true
 		var guardWhy string
